@@ -70,8 +70,8 @@ def rules(rep, m):
                 good = False
                 for c in rm:
                     a0, a1 = cx.canon(kids(c)[1]), cx.canon(kids(c)[2])
-                    if a1 == obj and (a0 == obj + "->holder" or a0 == "cmb_process_current()"
-                                      or a0.endswith("->holder")):
+                    if common.same_object(m, a1, obj) and (a0 == obj + "->holder" or a0 == "cmb_process_current()"
+                                                           or a0.endswith("->holder")):
                         good = True
                 if not good:
                     rep.finding(r2, f.name, "clear-without-untag", "%s clears the holder without removing the "
